@@ -91,6 +91,9 @@ def enc_tree(t):
     raise ValueError(t)
 
 
+LISTEN = [0]
+
+
 def make_parser():
     import hotxlfp
     from hotxlfp.formulas import error
@@ -103,6 +106,11 @@ def make_parser():
             raise e
         p.set_function('RAISE' + 'abcdefghi'[i], raiser)
     p.set_function('IDENT', lambda x: x)
+    LISTEN[0] += 1
+    if LISTEN[0] % 2:
+        # every other parser also has passive (logging) listeners on all four events: observing is not interfering
+        for ev in ('callFunction', 'callVariable', 'callCellValue', 'callRangeValue'):
+            p.on(ev, lambda *a: None)
     return p
 
 
